@@ -50,6 +50,9 @@ def take_and_reset(ck, C, dl):
 
 def who_may_defer(ck, C, b):
     f = ck.facts
+    from props import C08
+
+    C08.busy_answer_rules(ck, C)
     # ---- clause 4: who may defer ---------------------------------------------------------------
     writers = {}
     for body in f.bodies.values():
@@ -206,8 +209,44 @@ def run(ck):
     who_may_defer(ck, "4", b)
 
     # ---- clause 5: combination law --------------------------------------------------------------
+    # decided by evaluating the MIR of `|` and `|=` on all 16 pairs of PostAction values (engine/bits/finite_eval.py):
+    # the result is independent of how the functions are spelled. The structural rules below are the fallback when the
+    # evaluator meets a construct outside its fragment.
+    import os as _os, sys as _sys
+
+    _sys.path.insert(0, _os.path.join(_os.path.dirname(_os.path.abspath(__file__)), "..", "..", "bits"))
+    import finite_eval as FE
+
+    names = [v["name"] for v in f.adts[PA]["variants"]] if PA in f.adts else []
+    decided = {}
+    for q, kind in (("<PostAction as BitOr>::bitor", "value"), ("<PostAction as BitOrAssign>::bitor_assign", "assign")):
+        fb = f.body(q)
+        if fb is None or not names:
+            continue
+        wrong = []
+        try:
+            for a in range(len(names)):
+                for b_ in range(len(names)):
+                    ev = FE.Eval(f)
+                    want = a if a == b_ else names.index("Reregister")
+                    if kind == "value":
+                        got = ev.run(fb, [("enum", PA, a, []), ("enum", PA, b_, [])])
+                    else:
+                        cell = FE.Cell(("enum", PA, a, []))
+                        ev.run(fb, [("ref", cell), ("enum", PA, b_, [])])
+                        got = cell.v
+                    if got[0] != "enum" or got[2] != want:
+                        wrong.append("%s | %s = %s (expected %s)" % (names[a], names[b_], names[got[2]] if got[0] == "enum" else got, names[want]))
+            decided[q] = wrong
+        except FE.Unsupported as e:
+            ck.info("5", "T14-finite-evaluation", fb, "outside-fragment", "exhaustive evaluation not possible (%s); structural rule used instead" % e, site=fb.where())
+    for q, wrong in decided.items():
+        fb = f.body(q)
+        ck.verdict(not wrong, "5", "T14-finite-evaluation", fb, "combination-law(16 pairs)", "evaluated on all 16 pairs: the common value when both operands are equal, Reregister otherwise", "the combination law does not hold: %s" % "; ".join(wrong[:6]), site=fb.where())
     bo = f.body("<PostAction as BitOr>::bitor")
-    if bo is None:
+    if "<PostAction as BitOr>::bitor" in decided:
+        pass
+    elif bo is None:
         ck.anchor_missing("5", "T4-guarded-by", "<PostAction as BitOr>::bitor")
     else:
         eqs = T.calls(bo, name=("eq", "ne"), trait="PartialEq")
@@ -228,7 +267,9 @@ def run(ck):
         ck.verdict(okself, "5", "T4-guarded-by", bo, "equal=>operand", "an operand is returned only on the equal edge", "bitor does not return the common value on the equal edge", site=bo.where())
         ck.verdict(okrr, "5", "T4-guarded-by", bo, "unequal=>Reregister", "Reregister is returned only on the unequal edge", "bitor does not return Reregister on the unequal edge", site=bo.where())
     ba = f.body("<PostAction as BitOrAssign>::bitor_assign")
-    if ba is None:
+    if "<PostAction as BitOrAssign>::bitor_assign" in decided:
+        pass
+    elif ba is None:
         ck.anchor_missing("5", "T4-guarded-by", "<PostAction as BitOrAssign>::bitor_assign")
     else:
         eqs = T.calls(ba, name=("eq", "ne"), trait="PartialEq")
